@@ -99,6 +99,18 @@ claim("C16",
       "Trusted: regex readers of the two outputs; the scanners are validated only through these end-to-end comparisons (no per-regex hook). Reading fixed: a placeholder is numbered at its first occurrence in a comparison 'field = $name$'.",
       "Coq proof (tokenisation / numbering lemmas) + constraint-section and custom-query correspondence + syntax-tree ownership oracle", "DESIGN.md §5 C16")
 
+claim("C13",
+      "Coq theorems on the extraction model (one endpoint per kept registration in source order with its verb and URL; the prefix filter keeps exactly the URLs with the prefix; the contract is named after the handler and lists query parameters in statement order), "
+      "tied to /repo by running httpapi.ParseEcho on synthesised route files whose abstract content (registrations, constant-folded URLs, handler kinds, contract statements) is known by construction, under three prefix filters, and comparing every field of every endpoint.",
+      "Partial: the syntax scan, constant folding through go/types and handler resolution are exercised by the comparison with the synthesiser's route table, not modelled in Coq (the model starts from the abstract route file). Trusted: the route synthesiser.",
+      "Coq proof (filter/fold lemmas on the extraction model) + ParseEcho correspondence against the synthesiser's route table", "DESIGN.md §5 C13")
+claim("C14",
+      "Coq theorem: for every endpoint carrying data only with POST/PUT and every query-parameter kind, the request issued by the modelled method under axios' calling conventions is exactly the specified one (verb, URL, JSON body | exactly the declared form entries | null | none, "
+      "exactly the declared query keys with their conversions, headers, response type, returned value); one method per endpoint named after its handler. Tied to /repo by parsing every method of the real client text into the same IR and comparing it with the model; "
+      "the parsed methods are also interpreted in Coq and compared with the specified request, and the type names mentioned by signatures must be declared exactly once.",
+      "Relative to AxiosSem (axios calling conventions written in Coq); the client is not executed nor type-checked (no TypeScript toolchain offline): syntactic validity is what the harness reader accepts. Trusted: that reader.",
+      "Coq proof (request = specification) + parsed-client correspondence + semantic check of parsed methods", "DESIGN.md §5 C14")
+
 NOT_YET = "check not built yet in this round (planned, see DESIGN.md §6)"
 
 checks, na = [], []
